@@ -12,11 +12,13 @@ import (
 )
 
 func init() {
-	Explanations["C06"] = "Decides structural necessary conditions of 'the wallet ledger equals the chain's truth across reorgs' in package wallet: (R1) order — the apply step moves existing proofs (UpdateWalletSiacoinElementProofs) before WalletApplyIndex, the revert step calls WalletRevertIndex and then moves proofs on every success path, and UpdateChainState finishes all reverts before the first apply; (R2) exhaustiveness — every type implementing the event-data interface has a case in each type switch over Event.Data (four flow methods and the encoder), every EventType* constant has a case in both decoding switches, both decoders map each constant to the same data type, and every (type constant, data type) pair emitted by the event builder appears in that table; (R3) filter agreement — the apply and revert steps classify siacoin element diffs with the same case set (ephemeral skipped, foreign address skipped, created, spent) and hand created↔removed and spent↔unspent to the store in the corresponding argument positions. (R4) in the event builders two tests of different address operands of one loop element against the wallet's address are mutually independent (each reached on both outcomes of the other). NOT decided: equality of the utxo set and events with a linear replay, maturity heights, inflow − outflow = balance."
+	Explanations["C06"] = "Decides structural necessary conditions of 'the wallet ledger equals the chain's truth across reorgs' in package wallet: (R1) order — the apply step moves existing proofs (UpdateWalletSiacoinElementProofs) before WalletApplyIndex, the revert step calls WalletRevertIndex and then moves proofs on every success path, and UpdateChainState finishes all reverts before the first apply; (R2) exhaustiveness — every type implementing the event-data interface has a case in each type switch over Event.Data (four flow methods and the encoder), every EventType* constant has a case in both decoding switches, both decoders map each constant to the same data type, and every (type constant, data type) pair emitted by the event builder appears in that table; (R3) filter agreement — the apply and revert steps classify siacoin element diffs with the same case set (ephemeral skipped, foreign address skipped, created, spent) and hand created↔removed and spent↔unspent to the store in the corresponding argument positions. (R4) in the event builders two tests of different address operands of one loop element against the wallet's address are mutually independent (each reached on both outcomes of the other). (R5) each relevance predicate of the wallet (a function from a transaction and an address to bool) ranges over the whole siacoin output list and the whole siacoin input list of the transaction, comparing an address of the ranged element with its address parameter and reporting relevance on equality, and subscripts neither list at a fixed position — a jointly funded transaction is relevant whichever position the wallet's input has. (R6) in every function of the repository (the reference wallet store and contractor in testutil included), a loop over positions of a list that removes the element at the current position (slices.Delete(S, i, i+1) or append(S[:i], S[i+1:]...)) cannot come round to the next position on a path that neither decrements the position nor leaves the loop: otherwise the element that slid into the freed position is never examined (every second event of a reverted block survives). NOT decided: equality of the utxo set and events with a linear replay, maturity heights, inflow − outflow = balance."
 
 	register(&Rule{ID: "C06.R1", Prop: "C06", Floor: 4, Doc: "proof-move / index-update order on apply and revert; reverts before applies", Run: c06r1})
 	register(&Rule{ID: "C06.R2", Prop: "C06", Floor: 8, Doc: "event tables are exhaustive and agree (type switches, decoders, emitted pairs)", Run: c06r2})
 	register(&Rule{ID: "C06.R3", Prop: "C06", Floor: 3, Doc: "apply and revert classify element diffs identically and pass them in corresponding positions", Run: c06r3})
+	register(&Rule{ID: "C06.R5", Prop: "C06", Floor: 2, Doc: "the wallet's relevance tests examine every output and every input of a transaction", Run: c06r5})
+	register(&Rule{ID: "C06.R6", Prop: "C06", Floor: 2, Doc: "a loop that removes the element at its current position from the list it walks does not move on to the next position without compensating (reference stores included)", Run: c06r6})
 	register(&Rule{ID: "C06.R4", Prop: "C06", Floor: 1, Doc: "payouts of one element to the wallet are tested independently (host and renter output of a v2 contract)", Run: c06r4})
 }
 
@@ -731,5 +733,204 @@ func c06r4(c *Ctx) {
 		// condition): independence holds by construction
 		c.Visit(1)
 		c.Ob(nil, "address-tests-independent", 0).OK("no loop body tests two address operands of one element against the wallet's address")
+	}
+}
+
+// c06r5: relevance predicates look at every output and every input.
+func c06r5(c *Ctx) {
+	vs := c.P.Views("wallet", ir.ExpandOpt{Key: "all"})
+	for _, bf := range c.P.PkgFuncs("wallet") {
+		sig := bf.Obj.Type().(*types.Signature)
+		if sig.Recv() != nil || sig.Params().Len() != 2 || sig.Results().Len() != 1 || !isBasicKind(types.Bool)(sig.Results().At(0).Type()) {
+			continue
+		}
+		t0 := sig.Params().At(0).Type()
+		if !(ir.IsNamed(t0, ir.PkgPath("types"), "Transaction") || ir.IsNamed(t0, ir.PkgPath("types"), "V2Transaction")) || !ir.IsNamed(sig.Params().At(1).Type(), ir.PkgPath("types"), "Address") {
+			continue
+		}
+		f := vs.Of(bf)
+		g := f.Graph()
+		c.VisitGraph(f)
+		var txn, addr types.Object
+		i := 0
+		for _, fld := range f.Type.Params.List {
+			for _, nm := range fld.Names {
+				if i == 0 {
+					txn = f.Info().Defs[nm]
+				} else {
+					addr = f.Info().Defs[nm]
+				}
+				i++
+			}
+		}
+		for _, list := range []string{"SiacoinOutputs", "SiacoinInputs"} {
+			ob := c.Ob(f, "every-element-tested:"+list, f.Body.Pos())
+			if txn == nil || addr == nil {
+				ob.Unknown("unnamed parameters")
+				continue
+			}
+			// no fixed-position subscript of the list
+			fixed := ""
+			ir.Walk(f.Body, true, func(x ast.Node) {
+				ix, ok := x.(*ast.IndexExpr)
+				if !ok {
+					return
+				}
+				sel, ok := ast.Unparen(ix.X).(*ast.SelectorExpr)
+				if !ok || sel.Sel.Name != list || f.ObjOf(sel.X) != txn {
+					return
+				}
+				if _, isConst := f.ConstInt(ix.Index); isConst {
+					fixed = c.P.Pos(ix.Pos())
+				}
+			})
+			if fixed != "" {
+				ob.Bad(nil, "%s tests the element at a fixed position of the transaction's %s (%s): a transaction in which the wallet's element has another position is not recognised as relevant, so its event is missing although the wallet's outputs changed", f.Name(), list, fixed)
+				continue
+			}
+			// a range over txn.<list> whose body compares an address of the element with addr and returns true on equality
+			good := false
+			for _, head := range g.Nodes {
+				rs, ok := head.AST.(*ast.RangeStmt)
+				if !ok || rs.Value == nil {
+					continue
+				}
+				sel, ok := ast.Unparen(rs.X).(*ast.SelectorExpr)
+				if !ok || sel.Sel.Name != list || f.ObjOf(sel.X) != txn {
+					continue
+				}
+				elem := f.ObjOf(rs.Value)
+				for _, n := range g.Nodes {
+					if n.AST == nil || !containsNode(rs.Body, n.AST) || n.Block == nil || n.Block.Cond != n.AST || len(n.Succs) != 2 {
+						continue
+					}
+					be, ok := ast.Unparen(n.AST.(ast.Expr)).(*ast.BinaryExpr)
+					if !ok || (be.Op != token.EQL && be.Op != token.NEQ) {
+						continue
+					}
+					x, y := be.X, be.Y
+					if f.ObjOf(x) == addr {
+						x, y = y, x
+					}
+					if f.ObjOf(y) != addr || !f.MentionsObj(x, false, elem) {
+						continue
+					}
+					eq := n.Succs[0]
+					if be.Op == token.NEQ {
+						eq = n.Succs[1]
+					}
+					// on equality a `return true` follows without coming back to the loop head
+					for m := range f.ReachableFromEdges([]*cfgx.Edge{eq}, func(k *cfgx.Node) bool { return k == head }) {
+						if ret, ok := m.AST.(*ast.ReturnStmt); ok && len(ret.Results) == 1 {
+							if tv, ok := f.Info().Types[ret.Results[0]]; ok && tv.Value != nil && tv.Value.String() == "true" {
+								good = true
+							}
+						}
+					}
+				}
+			}
+			ob.Check(good, nil, "%s does not range over the transaction's %s comparing each element's address with the wallet address: transactions that touch the wallet only through that list (or through an element at an unexpected position) produce no event", f.Name(), list)
+		}
+	}
+}
+
+// c06r6: removing the current element while walking a list by position.
+func c06r6(c *Ctx) {
+	for _, f := range c.P.Funcs {
+		g := f.Graph()
+		visited := false
+		ir.Walk(f.Body, false, func(x ast.Node) {
+			var pos types.Object
+			var body *ast.BlockStmt
+			var back *cfgx.Node // where the loop comes round: the post statement or the range head
+			loop, _ := x.(ast.Stmt)
+			switch l := x.(type) {
+			case *ast.ForStmt:
+				inc, ok := l.Post.(*ast.IncDecStmt)
+				if !ok || inc.Tok != token.INC {
+					return
+				}
+				pos, body = f.ObjOf(inc.X), l.Body
+				for _, n := range g.Nodes {
+					if n.AST == ast.Node(l.Post) {
+						back = n
+					}
+				}
+			case *ast.RangeStmt:
+				if l.Key == nil {
+					return
+				}
+				pos, body, back = f.ObjOf(l.Key), l.Body, g.NodeOf(l)
+			default:
+				return
+			}
+			if pos == nil || pos.Name() == "_" || back == nil {
+				return
+			}
+			isPos := func(e ast.Expr) bool { return f.ObjOf(e) == pos }
+			isPosPlus1 := func(e ast.Expr) bool {
+				be, ok := ast.Unparen(e).(*ast.BinaryExpr)
+				if !ok || be.Op != token.ADD {
+					return false
+				}
+				v, isConst := f.ConstInt(be.Y)
+				return isPos(be.X) && isConst && v == 1
+			}
+			// removal nodes inside the body: S = slices.Delete(S, i, i+1) / S = append(S[:i], S[i+1:]...)
+			for _, n := range g.Nodes {
+				if n.AST == nil || !containsNode(body, n.AST) {
+					continue
+				}
+				removes := false
+				for _, w := range f.WritesIn(n.AST, false) {
+					call, ok := ast.Unparen(w.RHS).(*ast.CallExpr)
+					if w.RHS == nil || !ok {
+						continue
+					}
+					if fn := f.Callee(call); fn != nil && fn.Pkg() != nil && fn.Pkg().Path() == "slices" && fn.Name() == "Delete" && len(call.Args) == 3 {
+						if isPos(call.Args[1]) && isPosPlus1(call.Args[2]) {
+							removes = true
+						}
+					}
+					if id, ok := call.Fun.(*ast.Ident); ok && id.Name == "append" && len(call.Args) == 2 && call.Ellipsis.IsValid() {
+						a, okA := ast.Unparen(call.Args[0]).(*ast.SliceExpr)
+						b, okB := ast.Unparen(call.Args[1]).(*ast.SliceExpr)
+						if okA && okB && a.Low == nil && a.High != nil && isPos(a.High) && b.Low != nil && isPosPlus1(b.Low) && b.High == nil {
+							removes = true
+						}
+					}
+				}
+				if !removes {
+					continue
+				}
+				if !visited {
+					c.VisitGraph(f)
+					visited = true
+				}
+				ob := c.Ob(f, "removal-does-not-skip", n.Pos())
+				compensates := func(m *cfgx.Node) bool {
+					if m.AST == nil {
+						return false
+					}
+					for _, w := range f.WritesIn(m.AST, false) {
+						if f.ObjOf(w.LHS) == pos && (w.Tok == token.DEC || w.Tok == token.SUB_ASSIGN) {
+							return true
+						}
+					}
+					return false
+				}
+				var st []*cfgx.Visit
+				for _, e := range n.Succs {
+					st = append(st, cfgx.StartAfter(e, 0))
+				}
+				// (paths that leave the loop are not followed: a later, new walk starts at its own first position)
+				inside := func(m *cfgx.Node) bool { return m == back || nodeInStmt(m, loop) }
+				if v, ok := g.Reach(st, func(m *cfgx.Node) bool { return compensates(m) || !inside(m) })[back]; ok {
+					ob.Bad(c.Witness(v), "after the element at the current position is removed at %s the loop moves on to the next position: the element that slid into the freed position is never examined (when two adjacent elements are to be removed the second survives)", c.P.Pos(n.Pos()))
+				} else {
+					ob.OK("the loop is left, or the position is decremented, after the removal")
+				}
+			}
+		})
 	}
 }
